@@ -144,6 +144,110 @@ class _Universal(ast.NodeTransformer):
 
 
 # ---------------------------------------------------------------------------
+# keyword arguments -> positional (package functions with a unique name)
+
+_SIGS = None
+
+
+def _signatures(root):
+    """{function name: parameter list (without self/cls)} for names defined
+    exactly once with that parameter list in the package."""
+    global _SIGS
+    if _SIGS is not None and _SIGS[0] == root:
+        return _SIGS[1]
+    table = {}
+    for dp, dn, fns in os.walk(os.path.join(root, 'dassh')):
+        for f in fns:
+            if not f.endswith('.py'):
+                continue
+            try:
+                with open(os.path.join(dp, f)) as fh:
+                    t = ast.parse(fh.read())
+            except (OSError, SyntaxError):
+                continue
+            for n in ast.walk(t):
+                if isinstance(n, (ast.FunctionDef, ast.AsyncFunctionDef)):
+                    a = n.args
+                    if a.vararg or a.kwarg or a.kwonlyargs:
+                        ps = None
+                    else:
+                        ps = [x.arg for x in a.posonlyargs + a.args]
+                        if ps and ps[0] in ('self', 'cls'):
+                            ps = ps[1:]
+                        ps = tuple(ps)
+                    table.setdefault(n.name, set()).add(ps)
+    sigs = {k: list(next(iter(v))) for k, v in table.items()
+            if len(v) == 1 and next(iter(v)) is not None}
+    _SIGS = (root, sigs)
+    return sigs
+
+
+class _KwToPos(ast.NodeTransformer):
+    def __init__(self, sigs):
+        self.sigs = sigs
+
+    def visit_Call(self, node):
+        self.generic_visit(node)
+        if not node.keywords or any(k.arg is None for k in node.keywords) \
+                or any(isinstance(a, ast.Starred) for a in node.args):
+            return node
+        f = node.func
+        name = f.id if isinstance(f, ast.Name) else (
+            f.attr if isinstance(f, ast.Attribute) else None)
+        ps = self.sigs.get(name)
+        if not ps or name.startswith('__'):
+            return node
+        npos = len(node.args)
+        # Class.method(self, ...) style: the receiver is passed explicitly
+        kw = {k.arg: k.value for k in node.keywords}
+        if not set(kw) <= set(ps[npos:]):
+            return node
+        args = list(node.args)
+        rest = []
+        for p_ in ps[npos:]:
+            if p_ in kw and not rest:
+                args.append(kw.pop(p_))
+            else:
+                rest.append(p_)
+        node.args = args
+        node.keywords = [k for k in node.keywords if k.arg in kw]
+        return node
+
+
+class _SplitTupleAssign(ast.NodeTransformer):
+    """a, b = x, y  ->  a = x; b = y  (no cross-dependence)."""
+
+    def _split(self, stmts):
+        out = []
+        for st in stmts:
+            if isinstance(st, ast.Assign) and len(st.targets) == 1 and \
+                    isinstance(st.targets[0], ast.Tuple) and isinstance(
+                        st.value, ast.Tuple) and \
+                    len(st.targets[0].elts) == len(st.value.elts) and all(
+                        isinstance(t, ast.Name) for t in st.targets[0].elts):
+                tn = {t.id for t in st.targets[0].elts}
+                used = set()
+                for v in st.value.elts:
+                    used |= {x.id for x in ast.walk(v)
+                             if isinstance(x, ast.Name)}
+                if not (tn & used):
+                    for t, v in zip(st.targets[0].elts, st.value.elts):
+                        out.append(ast.copy_location(ast.Assign(
+                            targets=[t], value=v), st))
+                    continue
+            out.append(st)
+        return out
+
+    def generic_visit(self, node):
+        super().generic_visit(node)
+        for f in ('body', 'orelse', 'finalbody'):
+            b = getattr(node, f, None)
+            if isinstance(b, list) and b and isinstance(b[0], ast.stmt):
+                setattr(node, f, self._split(b))
+        return node
+
+
+# ---------------------------------------------------------------------------
 # helpers shared by reference generation and rewriting
 
 def qualfuncs(tree):
@@ -271,6 +375,9 @@ def build_reference(repo_root):
                 text = fh.read()
             tree = ast.parse(text)
             tree = ast.fix_missing_locations(_Universal().visit(tree))
+            _KwToPos(_signatures(repo_root)).visit(tree)
+            _SplitTupleAssign().visit(tree)
+            ast.fix_missing_locations(tree)
             if os.environ.get('DSA_INLINE_ALL'):
                 _inline_all_lookups(tree)
                 ast.fix_missing_locations(tree)
@@ -1755,6 +1862,9 @@ def canonicalise(tree, modname, text=None):
         return log
     ref = load_reference()
     _Universal().visit(tree)
+    from . import core as _core
+    _KwToPos(_signatures(_core.REPO)).visit(tree)
+    _SplitTupleAssign().visit(tree)
     if os.environ.get('DSA_INLINE_ALL'):
         _inline_all_lookups(tree)
     table = ref.get(modname)
